@@ -22,38 +22,57 @@ Proof.
 Qed.
 Print Assumptions C13_invalid_contribution_rejected.
 
-(* (b) If any prepare or any execute (hence any swap: a lost message, an error reply, a rejected
-   contribution) fails, the generation ends with an error and, whatever the network did to the
-   contributions (tm), the accounts held by every instance are exactly those held before: the
-   initiator never sends commit. *)
+(* (b) The network nt may lose (or answer by an error) any prepare or execute message and lose or
+   alter any contribution in flight.  If the exchange does not complete - a prepare or an execute
+   message does not get through, a participant refuses to prepare, or any swap fails (a lost message,
+   an error reply, a rejected contribution) - the generation ends with an error and the accounts
+   held by every instance are exactly those held before: the initiator never sends commit. *)
 Theorem C13_failed_exchange_creates_no_account :
-  forall c tm acct thr parts poly cl,
-    (fst (prepare_all acct thr parts poly parts cl) = false \/
-     fst (execute_all c tm acct parts (snd (prepare_all acct thr parts poly parts cl))) = false) ->
-    fst (generate c tm acct thr parts poly cl) = DErr /\
-    accounts_of (snd (generate c tm acct thr parts poly cl)) = accounts_of cl.
+  forall c nt acct thr parts poly cl,
+    fst (exchange c nt acct thr parts poly cl) = false ->
+    fst (generate c nt acct thr parts poly cl) = DErr /\
+    accounts_of (snd (generate c nt acct thr parts poly cl)) = accounts_of cl.
 Proof. exact failed_exchange_creates_nothing. Qed.
 Print Assumptions C13_failed_exchange_creates_no_account.
+
+(* the exchange does fail in each of those cases *)
+Theorem C13_exchange_fails :
+  (forall c nt acct thr parts poly cl p,
+     In p parts -> nt_lost_prepare nt p = true -> fst (exchange c nt acct thr parts poly cl) = false) /\
+  (forall c nt acct thr parts poly cl p,
+     In p parts -> nt_lost_execute nt p = true -> fst (exchange c nt acct thr parts poly cl) = false) /\
+  (forall c nt acct thr parts poly cl,
+     fst (prepare_all acct thr parts poly (until (nt_lost_prepare nt) parts) cl) = false ->
+     fst (exchange c nt acct thr parts poly cl) = false) /\
+  (forall c nt acct thr parts poly cl,
+     fst (execute_all c (nt_swap nt) acct (until (nt_lost_execute nt) parts)
+            (snd (prepare_all acct thr parts poly (until (nt_lost_prepare nt) parts) cl))) = false ->
+     fst (exchange c nt acct thr parts poly cl) = false).
+Proof.
+  split; [exact lost_prepare_fails|]. split; [exact lost_execute_fails|].
+  split; [exact refused_prepare_fails|exact failed_swap_fails].
+Qed.
+Print Assumptions C13_exchange_fails.
 
 (* (c) No contribution makes an instance crash: with the length check, for every behaviour of the
    network, the generation never reaches the out-of-range index of the aggregate vector. *)
 Theorem C13_no_crash :
-  forall c tm acct thr parts poly cl,
+  forall c nt acct thr parts poly cl,
     check_len c = true -> cluster_inv c cl -> polys_ok c thr poly ->
-    fst (generate c tm acct thr parts poly cl) <> DPanic.
+    fst (generate c nt acct thr parts poly cl) <> DPanic.
 Proof. exact generate_no_panic. Qed.
 Print Assumptions C13_no_crash.
 
 (* the pinned (pre-fix) receiving side: a vector one entry too long, consistent with its share, is
    accepted, and the commit indexes the threshold-sized aggregate out of range (F4) *)
 Lemma C13_refuted_legacy :
-  fst (generate {| check_len := false |} pad_vector "W/a" 2 [1; 2; 3]%N poly3 [mkn 1; mkn 2; mkn 3]) = DPanic.
+  fst (generate {| check_len := false |} (net_of pad_vector) "W/a" 2 [1; 2; 3]%N poly3 [mkn 1; mkn 2; mkn 3]) = DPanic.
 Proof. exact legacy_long_vector_panics. Qed.
 
 (* the same run with the check: refused, nobody holds an account *)
 Example C13_example :
-  generate {| check_len := true |} pad_vector "W/a" 2 [1; 2; 3]%N poly3 [mkn 1; mkn 2; mkn 3] =
-  (DErr, snd (generate {| check_len := true |} pad_vector "W/a" 2 [1; 2; 3]%N poly3 [mkn 1; mkn 2; mkn 3])) /\
-  accounts_of (snd (generate {| check_len := true |} pad_vector "W/a" 2 [1; 2; 3]%N poly3 [mkn 1; mkn 2; mkn 3])) =
+  generate {| check_len := true |} (net_of pad_vector) "W/a" 2 [1; 2; 3]%N poly3 [mkn 1; mkn 2; mkn 3] =
+  (DErr, snd (generate {| check_len := true |} (net_of pad_vector) "W/a" 2 [1; 2; 3]%N poly3 [mkn 1; mkn 2; mkn 3])) /\
+  accounts_of (snd (generate {| check_len := true |} (net_of pad_vector) "W/a" 2 [1; 2; 3]%N poly3 [mkn 1; mkn 2; mkn 3])) =
   accounts_of [mkn 1; mkn 2; mkn 3].
 Proof. exact fixed_long_vector_rejected. Qed.
